@@ -109,6 +109,14 @@ func coqMeth(m MethDesc) string {
 		coqStr(m.Name), vh.BoolTerm(m.InSamePkg), coqStr(m.InName), coqStr(m.OutName), coqStr(m.OutFull), http, strings.Join(fs, ";"))
 }
 
+func coqAnns(im *Img) string {
+	q := make([]string, len(im.Anns))
+	for i, a := range im.Anns {
+		q[i] = fmt.Sprintf("(%s, (%s, %d))", coqKey(a.Pkg, a.Name), coqStr(a.Entity), a.Part)
+	}
+	return "[" + strings.Join(q, ";") + "]"
+}
+
 func coqImg(im *Img) string {
 	svcs := make([]string, len(im.Services))
 	for i, s := range im.Services {
